@@ -187,6 +187,44 @@ End Names.
 
 Definition cali : bytes := Eval compute in bs "cali".
 
+(* ---------- further shorteners built on the same pieces ---------- *)
+
+Definition dash : N := 45.   (* '-' *)
+Definition dot  : N := 46.   (* '.' *)
+Definition bar  : N := 124.  (* '|' *)
+
+(* felix/nftables/ipsets.go LegalizeSetName: strings.ReplaceAll(name, ":", "-") *)
+Definition legalize (s : bytes) : bytes := map (fun c => if N.eqb c colon then dash else c) s.
+(* nftables IPSets.nameForMainIPSet *)
+Definition nft_set_name (v6 : bool) (id : bytes) : bytes := legalize (main_set_name cali v6 id).
+
+(* felix/rules/nflogprefix.go maybeHash: NFLOGPrefixMaxLengthWoTerm = 63, kept head/tail = 10, hashLen = 42 *)
+Definition nflog_max : nat := 63.
+Definition nflog_keep : nat := 10.
+Definition nflog_hash_len : nat := 42.
+Definition maybe_hash (clamp : bool) (H : bytes -> bytes) (p : bytes) : option bytes :=
+  if nflog_max <=? length p then
+    match gllid clamp H [] p nflog_hash_len with
+    | Some h => Some (firstn nflog_keep p ++ h ++ marker :: skipn (length p - nflog_keep) p)
+    | None => None
+    end
+  else Some p.
+(* CalculateNFLOGPrefixStr: fmt.Sprintf("%c%c%c%d|%s", action, owner, dir, idx, id.ID()) for a PolicyID
+   (action, owner, dir are ASCII letters; idx >= 0) *)
+Definition nflog_rule_text (action owner dir idx : N) (id : policy_id) : bytes :=
+  action :: owner :: dir :: decimal idx ++ bar :: policy_text id.
+
+(* libcalico-go/lib/backend/k8s/conversion VethNameForWorkload: prefix ++ hex(sha1(ns "." pod))[:11] *)
+Definition veth_name (H1 : bytes -> bytes) (ns pod : bytes) : bytes :=
+  cali ++ firstn 11 (H1 (ns ++ dot :: pod)).
+
+(* libcalico-go/lib/ipam/vmipam CreateVMHandleID *)
+Definition default_network : bytes := Eval compute in bs "k8s-pod-network".
+Definition t_vmi : bytes := Eval compute in bs ".vmi.".
+Definition vm_handle_id (clamp : bool) (H : bytes -> bytes) (net ns vm : bytes) : option bytes :=
+  let net := match net with [] => default_network | _ => net end in
+  gllid clamp H (net ++ t_vmi) (ns ++ dot :: vm) 128.
+
 (* ---------- identities handed to the name builders ---------- *)
 
 Inductive set_src :=
@@ -202,11 +240,16 @@ Inductive ident :=
 | IdMainSet (v6 : bool) (src : set_src)                 (* NameForMainIPSet *)
 | IdTempSet (v6 : bool) (n : N)                         (* NameForTempIPSet *)
 | IdPolText (id : policy_id)                            (* PolicyID.ID() *)
-| IdUnique (tag content : bytes).                       (* MakeUniqueID *)
+| IdUnique (tag content : bytes)                        (* MakeUniqueID *)
+| IdNftSet (v6 : bool) (src : set_src)                  (* nftables LegalizeSetName(NameForMainIPSet) *)
+| IdNflog (text : bytes)                                (* rules.maybeHash *)
+| IdNflogRule (action owner dir idx : N) (id : policy_id)   (* CalculateNFLOGPrefixStr *)
+| IdVeth (ns pod : bytes)                               (* VethNameForWorkload *)
+| IdVMHandle (net ns vm : bytes).                       (* CreateVMHandleID *)
 
 Section ModelName.
   Variable clamp : bool.
-  Variable H256 H224 H3 : bytes -> bytes.
+  Variable H256 H224 H3 H1 : bytes -> bytes.   (* H1: hex text of sha1 *)
 
   Definition set_id (src : set_src) : bytes :=
     match src with
@@ -226,5 +269,10 @@ Section ModelName.
     | IdTempSet v6 n => Some (temp_set_name cali v6 n)
     | IdPolText id => Some (policy_text id)
     | IdUnique tag content => Some (make_unique_id H224 tag content)
+    | IdNftSet v6 src => Some (nft_set_name v6 (set_id src))
+    | IdNflog text => maybe_hash clamp H256 text
+    | IdNflogRule a o d i id => maybe_hash clamp H256 (nflog_rule_text a o d i id)
+    | IdVeth ns pod => Some (veth_name H1 ns pod)
+    | IdVMHandle net ns vm => vm_handle_id clamp H256 net ns vm
     end.
 End ModelName.
